@@ -40,7 +40,7 @@ theorem tax_report_total (period : Int) (cs : List Computed)
 /-- **whole-run model**: a valid invocation (no option fault, the input computes) for which every generator of the country has a template
     in the chosen language and its generator model succeeds exits with status 0 and writes exactly one report per generator, named
     `<prefix><method or "mixed">_<generator>.ods`, in execution order. The generator hypotheses are discharged by the table theorems
-    (templates), `full_report_total`, `generator_tax_total`, `generator_jp_total`; for open_positions it is validated by correspondence. -/
+    (templates), `full_report_total`, `generator_tax_total`, `generator_jp_total`, `generator_open_positions_total` — see `valid_run_writes_every_report`. -/
 theorem valid_run_completes (o : Cli.Options) (acctName holderOf : Nat → String) (cfgAssets : List String) (sheets : List Cli.AssetIn)
     (iso : String) (period : Nat) (defMethod : String) (methods gens : List String) (defLang : String) (sched : List (Int × Method)) (cs : List Computed)
     (v : Cli.Valid o acctName cfgAssets sheets iso period defMethod methods gens defLang sched cs)
@@ -62,4 +62,22 @@ theorem generator_jp_total (o : Cli.Options) (period : Nat) (holderOf : Nat → 
     (hw : (o.fromD.isSome && o.toD.isSome) = false)
     (hv : ∀ c ∈ cs, ∀ x ∈ c.intras, gt13 (dsub (ofUnits x.sent) (ofUnits x.recv)) 0 = true → gt13 (dmul (dsub (ofUnits x.sent) (ofUnits x.recv)) (ofUnits x.price)) 0 = true) :
     ∃ rep, Cli.genReport o "tax_report_jp" period holderOf cs = .ok rep := Cli.genReport_jp o period holderOf cs hw hv
+/-- the open-positions generator model has no failure branch (after the repair of F16: an asset whose residual cost is rounding noise of
+    the sold percentages while nothing is held any longer is skipped instead of raising `KeyError`) -/
+theorem generator_open_positions_total (o : Cli.Options) (period : Nat) (holderOf : Nat → String) (cs : List Computed) :
+    ∃ rep, Cli.genReport o "open_positions" period holderOf cs = .ok rep := Cli.genReport_open o period holderOf cs
+/-- **whole-run model, every generator hypothesis discharged**: no option fault + the input computes + OUT rows carry disposal types +
+    templates exist for the language (table theorems) + for the Japanese report neither F8 (both dates) nor F13 (invisible yen fee)
+    ⇒ exit status 0 and exactly one report per generator of the country, in execution order -/
+theorem valid_run_writes_every_report (o : Cli.Options) (acctName holderOf : Nat → String) (cfgAssets : List String) (sheets : List Cli.AssetIn)
+    (iso : String) (period : Nat) (defMethod : String) (methods gens : List String) (defLang : String) (sched : List (Int × Method)) (cs : List Computed)
+    (v : Cli.Valid o acctName cfgAssets sheets iso period defMethod methods gens defLang sched cs)
+    (hout : ∀ s ∈ sheets, ∀ t ∈ s.outs, ValidOutType t.typ)
+    (ht : ∀ g ∈ Cli.ordered gens, Cli.hasTemplate iso (Cli.genBase g) (o.lang.getD defLang) = true)
+    (hjp : ∀ g ∈ Cli.ordered gens, Cli.genBase g = "tax_report_jp" → (o.fromD.isSome && o.toD.isSome) = false ∧
+      ∀ c ∈ cs, ∀ x ∈ c.intras, gt13 (dsub (ofUnits x.sent) (ofUnits x.recv)) 0 = true → gt13 (dmul (dsub (ofUnits x.sent) (ofUnits x.recv)) (ofUnits x.price)) 0 = true) :
+    (Cli.run o acctName holderOf cfgAssets sheets).exit = 0 ∧
+    (Cli.run o acctName holderOf cfgAssets sheets).files.map (·.1) =
+      (Cli.ordered gens).map (fun g => Cli.fileName o.pfx (Cli.methodName (Cli.scheduleOf o defMethod)) (Cli.genBase g)) :=
+  Cli.run_complete_on_computed o acctName holderOf cfgAssets sheets iso period defMethod methods gens defLang sched cs v hout ht hjp
 end Rp2.C16
